@@ -348,6 +348,14 @@ impl Ctx {
         }
     }
 
+    /// The announced case is over: a stale MARK must not make the coordinator take the cases that
+    /// follow without announcement for a hang of that one.
+    pub fn unmark(&self) {
+        if self.marks {
+            eprintln!("UNMARK");
+        }
+    }
+
     /// Classify a failure: tolerated known finding (returns Ok) or a violation.
     pub fn judge(&mut self, f: Failure) -> Result<(), Failure> {
         if !self.strict {
@@ -424,6 +432,7 @@ impl Ctx {
                 }
             }
             self.class_n(&format!("coverage-guided inputs (libFuzzer) into {}", label), n);
+            self.unmark();
             return;
         }
         let my_cases = (cases / self.nshards as u64
@@ -495,6 +504,7 @@ impl Ctx {
             }
         }
         let _ = (TestCaseError::fail("x"), None::<TestError<u8>>);
+        self.unmark();
         if let Some(f) = last_fail {
             if self.failures.len() < 3 {
                 self.failures.push(f);
